@@ -408,3 +408,30 @@ func enumBase(idPrefix, baseName, src string, d Depth, alpha []int, st *Stats, e
 	}
 	return true
 }
+
+// AdjacencyCoverage reports how many distinct token types, ordered pairs and
+// ordered (before, subject, after) triples of adjacent token types occur in
+// the base configurations (comments and newlines count as tokens).
+func AdjacencyCoverage() (types, pairs, triples int) {
+	ty := map[hclsyntax.TokenType]struct{}{}
+	pr := map[[2]hclsyntax.TokenType]struct{}{}
+	tr := map[[3]hclsyntax.TokenType]struct{}{}
+	for _, set := range [][]Base{PairBases(), ExprBases()} {
+		for _, b := range set {
+			toks, _, ok := Lex([]byte(b.Src))
+			if !ok {
+				continue
+			}
+			for i, t := range toks {
+				ty[t.Type] = struct{}{}
+				if i+1 < len(toks) {
+					pr[[2]hclsyntax.TokenType{t.Type, toks[i+1].Type}] = struct{}{}
+				}
+				if i+2 < len(toks) {
+					tr[[3]hclsyntax.TokenType{t.Type, toks[i+1].Type, toks[i+2].Type}] = struct{}{}
+				}
+			}
+		}
+	}
+	return len(ty), len(pr), len(tr)
+}
